@@ -10,7 +10,8 @@
 // C. Store.CollectHeartbeat (expiry-driven volume deletion) must not remove unexpired blobs
 // D. filer seconds -> volume TTL through (&operation.StorageOption{}).ToAssignRequests
 // E. end to end: a filer entry that Filer.FindEntry still shows, whose data sits in a
-//    volume with the TTL the filer asked for, must not point at expired data
+//
+//	volume with the TTL the filer asked for, must not point at expired data
 package main
 
 import (
@@ -117,7 +118,8 @@ func unitOf(ttl string) string {
 }
 
 type world struct {
-	r *lib.Run
+	r      *lib.Run
+	e2eSeq int
 }
 
 func payload(key uint64) []byte { return []byte(fmt.Sprintf("ttl-blob-%d-payload", key)) }
@@ -585,10 +587,15 @@ func (w *world) newFiler() *filer.Filer {
 	return f
 }
 
-func (w *world) endToEnd(f *filer.Filer, s int32, ageSec int64, label string) {
+// endToEnd: ageSec is the age of the entry's creation and of its chunk; mtimeAgeSec >= 0
+// means the entry was updated later (attributes only, chunks kept) so that its Mtime is that
+// old, -1 means never updated (Mtime == Crtime). Visibility is judged through Filer.FindEntry
+// and through a directory listing (two entries with the same chunk, because each lookup
+// deletes an entry it considers expired).
+func (w *world) endToEnd(f *filer.Filer, s int32, ageSec, mtimeAgeSec int64, label string) {
 	r := w.r
 	volTtl := volumeTtlFor(s)
-	r.Case(map[string]interface{}{"step": "end-to-end", "ttl_sec": s, "age_sec": ageSec, "volume_ttl": volTtl})
+	r.Case(map[string]interface{}{"step": "end-to-end", "ttl_sec": s, "age_sec": ageSec, "mtime_age_sec": mtimeAgeSec, "volume_ttl": volTtl})
 	dir := r.SubDir("c09e2e")
 	defer os.RemoveAll(dir)
 	st, stop := lib.OpenStoreStoppable(dir, storage.NeedleMapInMemory)
@@ -609,37 +616,76 @@ func (w *world) endToEnd(f *filer.Filer, s int32, ageSec int64, label string) {
 	st, stop = lib.OpenStoreStoppable(dir, storage.NeedleMapInMemory)
 	defer func() { st.Close(); stop() }()
 
-	path := util.FullPath(fmt.Sprintf("/e2e-%s-%d", label, s))
+	w.e2eSeq++
+	findPath := util.FullPath(fmt.Sprintf("/e2e-%s-%d-%d", label, s, w.e2eSeq))
+	listDir := util.FullPath(fmt.Sprintf("/lst-%s-%d-%d", label, s, w.e2eSeq))
+	listPath := util.FullPath(string(listDir) + "/f")
 	fid := fmt.Sprintf("1,%x%08x", key, 0x99)
-	entry := &filer.Entry{FullPath: path, Attr: filer.Attr{Mtime: T0, Crtime: T0, Mode: 0644, TtlSec: s},
-		Chunks: []*filer_pb.FileChunk{{FileId: fid, Size: uint64(len(payload(key))), Mtime: T0.UnixNano()}}}
-	r.Must(f.CreateEntry(context.Background(), entry, false, false, nil), "CreateEntry")
+	mt := "equal"
+	for _, path := range []util.FullPath{findPath, listPath} {
+		mk := func(cr, mt time.Time, mode os.FileMode) *filer.Entry {
+			return &filer.Entry{FullPath: path, Attr: filer.Attr{Mtime: mt, Crtime: cr, Mode: mode, TtlSec: s},
+				Chunks: []*filer_pb.FileChunk{{FileId: fid, Size: uint64(len(payload(key))), Mtime: T0.UnixNano()}}}
+		}
+		if mtimeAgeSec < 0 {
+			r.Must(f.CreateEntry(context.Background(), mk(T0, T0, 0644), false, false, nil), "CreateEntry")
+			continue
+		}
+		// Updated entry. The update has to happen while the entry is alive (as it did at its
+		// time), so both steps run with fresh timestamps and the stored times are rewritten
+		// afterwards: create at c0, update at u1 through the same entry point (existing path ->
+		// Filer.UpdateEntry, chunk list unchanged), then Crtime/Mtime are moved in the store.
+		mt = "later"
+		c0, u1 := start.Add(-10*time.Second), start.Add(-5*time.Second)
+		T1 := start.Add(-time.Duration(mtimeAgeSec) * time.Second)
+		r.Must(f.CreateEntry(context.Background(), mk(c0, c0, 0644), false, false, nil), "CreateEntry")
+		r.Must(f.CreateEntry(context.Background(), mk(u1, u1, 0600), false, false, nil), "CreateEntry (update)")
+		stored, serr := f.Store.FindEntry(context.Background(), path)
+		r.Must(serr, "read stored entry")
+		if stored.Crtime.Unix() == c0.Unix() {
+			stored.Crtime = T0 // the update kept the creation time
+			r.Count("e2e.update_kept_crtime", 1)
+		} else {
+			stored.Crtime = T1 // the update replaced the creation time: the entry now claims to be as young as its update
+			r.Count("e2e.update_moved_crtime", 1)
+		}
+		stored.Mtime = T1
+		r.Must(f.Store.UpdateEntry(context.Background(), stored), "rewrite stored entry times")
+	}
 	if time.Since(start) > maxScenario {
 		r.Count("scenarios_dropped_too_slow", 1)
 		return
 	}
-	got, ferr := f.FindEntry(context.Background(), path)
-	visible := ferr == nil && got != nil
 	rn := &needle.Needle{Id: types.NeedleId(key), Cookie: 0x99}
 	_, rerr := st.ReadVolumeNeedle(1, rn, nil)
-	r.Eval(1)
-	r.Count(fmt.Sprintf("e2e.visible=%v,data_readable=%v", visible, rerr == nil), 1)
 	entryAlive := time.Duration(ageSec)*time.Second <= time.Duration(s)*time.Second-margin
-	if visible && rerr != nil {
-		r.Violation(lib.Sig{"op": "filer-entry-vs-volume-ttl", "class": "visible-entry-points-at-expired-data", "input": inputClassOf(s)},
-			map[string]interface{}{"ttl_sec": s, "age_sec": ageSec, "volume_ttl": volTtl, "volume_ttl_seconds": ttlMinutes(volTtl) * 60, "read_error": rerr.Error(), "chunk": fid})
-		return
+	for _, via := range []string{"FindEntry", "list"} {
+		visible := false
+		if via == "FindEntry" {
+			got, ferr := f.FindEntry(context.Background(), findPath)
+			visible = ferr == nil && got != nil
+		} else {
+			es, _, lerr := f.ListDirectoryEntries(context.Background(), listDir, "", false, 100, "", "", "")
+			visible = lerr == nil && len(es) > 0
+		}
+		r.Eval(1)
+		r.Count(fmt.Sprintf("e2e.via=%s,mtime=%s,visible=%v,data_readable=%v", via, mt, visible, rerr == nil), 1)
+		if visible && rerr != nil {
+			r.Violation(lib.Sig{"op": "filer-entry-vs-volume-ttl", "class": "visible-entry-points-at-expired-data", "input": inputClassOf(s), "via": via, "mtime": mt},
+				map[string]interface{}{"ttl_sec": s, "age_sec": ageSec, "mtime_age_sec": mtimeAgeSec, "volume_ttl": volTtl, "volume_ttl_seconds": ttlMinutes(volTtl) * 60, "read_error": rerr.Error(), "chunk": fid})
+			continue
+		}
+		if entryAlive && !visible {
+			// not a statement of C09 (an entry may disappear early without pointing at expired data); recorded
+			r.Count("recorded.entry_invisible_before_its_ttl", 1)
+		}
+		r.Nontrivial(fmt.Sprintf("e2e/%d/%d/%d/%s", s, ageSec, mtimeAgeSec, via))
 	}
-	if entryAlive && !visible {
-		// not a statement of C09 (an entry may disappear early without pointing at expired data); recorded
-		r.Count("recorded.entry_invisible_before_its_ttl", 1)
-	}
-	r.Nontrivial(fmt.Sprintf("e2e/%d/%d", s, ageSec))
 }
 
 func main() {
 	r := lib.Start("C09", "exploration")
-	r.SetRule("volume scenarios: blobs with every TTL unit (m,h,d,w,M,y) x count {1,2,59,60,255} (plus blobs inheriting the volume TTL), in volumes with TTL none/equal/shorter/longer, written with a server timestamp or a client timestamp 400 days in the past, aged by rewriting the stored AppendAtNs (and LastModified as the server would have set it at that time, and the .dat mtime) to fresh / ttl-90s / ttl+90s; read, compacted with Compact and Compact2 + CommitCompact, read, reloaded, read; heartbeat scenarios run Store.CollectHeartbeat on aged, freshly written and brand-new TTL volumes. conversion: every filer TTL 1..100000 s, a stride up to 2^31-1 and +-2 s around unit boundaries through StorageOption.ToAssignRequests -> ReadTTL. end-to-end: filer entry (Filer.CreateEntry/FindEntry on a leveldb store) with TtlSec=s whose chunk sits in a real volume created with the TTL the filer asks for, both aged alike. distinct = distinct (scenario kind, volume TTL, blob TTL, age class, timestamp class, algorithm/phase) resp. distinct seconds value; non-trivial = a judged read of an aged TTL blob, a conversion that had to round, a judged end-to-end pair")
+	r.SetRule("volume scenarios: blobs with every TTL unit (m,h,d,w,M,y) x count {1,2,59,60,255} (plus blobs inheriting the volume TTL), in volumes with TTL none/equal/shorter/longer, written with a server timestamp or a client timestamp 400 days in the past, aged by rewriting the stored AppendAtNs (and LastModified as the server would have set it at that time, and the .dat mtime) to fresh / ttl-90s / ttl+90s; read, compacted with Compact and Compact2 + CommitCompact, read, reloaded, read; heartbeat scenarios run Store.CollectHeartbeat on aged, freshly written and brand-new TTL volumes. conversion: every filer TTL 1..100000 s, a stride up to 2^31-1 and +-2 s around unit boundaries through StorageOption.ToAssignRequests -> ReadTTL. end-to-end: filer entries (Filer.CreateEntry on a leveldb store, looked up through FindEntry and through ListDirectoryEntries) with TtlSec=s whose chunk sits in a real volume created with the TTL the filer asks for, both aged alike; also entries updated after creation (Mtime later than Crtime, chunks kept) with Crtime at ttl+-90 s and Mtime at ttl-90 s / ttl/2 / now. distinct = distinct (scenario kind, volume TTL, blob TTL, age class, timestamp class, algorithm/phase) resp. distinct seconds value; non-trivial = a judged read of an aged TTL blob, a conversion that had to round, a judged end-to-end pair")
 	r.Assume("ages are data: AppendAtNs/LastModified/mtime/Crtime are placed >= 90 s away from every expiry boundary relative to the time the scenario started; a scenario that needed more than 60 s before its last read is dropped and counted, never judged")
 	r.Assume("blobs are never aged to before 2012 (a TTL of 255 years cannot be observed past its expiry); such 'old' cases are skipped and counted")
 	r.Assume("'not readable afterwards' is judged at read time only; physical removal is not required")
@@ -647,17 +693,22 @@ func main() {
 
 	if r.Replay != "" {
 		var d struct {
-			Plan    *volPlan `json:"replay_plan"`
-			Seconds int32    `json:"seconds"`
-			TtlSec  int32    `json:"ttl_sec"`
-			AgeSec  int64    `json:"age_sec"`
+			Plan     *volPlan `json:"replay_plan"`
+			Seconds  int32    `json:"seconds"`
+			TtlSec   int32    `json:"ttl_sec"`
+			AgeSec   int64    `json:"age_sec"`
+			MtimeAge *int64   `json:"mtime_age_sec"`
 		}
 		r.Must(r.LoadReplay(&d), "load replay")
 		switch {
 		case d.Plan != nil:
 			w.runVolume(*d.Plan)
 		case d.TtlSec != 0:
-			w.endToEnd(w.newFiler(), d.TtlSec, d.AgeSec, "replay")
+			ma := int64(-1)
+			if d.MtimeAge != nil {
+				ma = *d.MtimeAge
+			}
+			w.endToEnd(w.newFiler(), d.TtlSec, d.AgeSec, ma, "replay")
 		case d.Seconds != 0:
 			str := volumeTtlFor(d.Seconds)
 			fmt.Printf("replay: %d s -> %q (%d s)\n", d.Seconds, str, ttlMinutes(str)*60)
@@ -698,11 +749,20 @@ func main() {
 		if time.Now().Add(-time.Duration(age) * time.Second).Before(earliest) {
 			continue
 		}
-		w.endToEnd(f, s, age, "gap")
+		w.endToEnd(f, s, age, -1, "gap")
 	}
 	for _, s := range []int32{180, 3600, 7200, 86400, 5 * 86400, 14 * 86400} {
-		w.endToEnd(f, s, int64(s)-int64(margin/time.Second), "exact-young")
-		w.endToEnd(f, s, int64(s)+int64(margin/time.Second), "exact-old")
+		m := int64(margin / time.Second)
+		w.endToEnd(f, s, int64(s)-m, -1, "exact-young")
+		w.endToEnd(f, s, int64(s)+m, -1, "exact-old")
+		// entries updated after creation (Mtime later than Crtime, chunks kept): the data is as
+		// old as the creation, so visibility must follow the creation time
+		w.endToEnd(f, s, int64(s)+m, int64(s)-m, "upd-old-mtime-young")
+		w.endToEnd(f, s, int64(s)+m, 0, "upd-old-mtime-now")
+		w.endToEnd(f, s, int64(s)-m, 0, "upd-young-mtime-now")
+		if int64(s) > 4*m {
+			w.endToEnd(f, s, int64(s)-m, int64(s)/2, "upd-young-mtime-half")
+		}
 	}
 	r.Note("end_to_end_gap_candidates", len(gaps))
 
